@@ -640,6 +640,26 @@ Proof.
   cbn [bind] in Hh. inversion Hh; subst. cbn [bins]. exact R.
 Qed.
 
+
+Lemma pos_filter' (pairs : list bin) : pos_counts (filter (fun p => Z.ltb 0 (snd p)) pairs).
+Proof.
+  unfold pos_counts. rewrite Forall_forall. intros p Hp. apply filter_In in Hp as [_ H]. apply Z.ltb_lt in H. lia.
+Qed.
+
+(* a bulk load feeds numpy's (value or midpoint, count) pairs with a positive count to update: the
+   reference run on those pairs *)
+Corollary bulkload_ref (s : st) (pairs : list bin) (dmin dmax : Q) :
+  Inv s -> cache_exact s -> pairs <> [] ->
+  uniq_trace (cap s) (bins s) (filter (fun p => Z.ltb 0 (snd p)) pairs) ->
+  exists s', bulkload A s pairs dmin dmax = Some s' /\
+             ref_feed A (cap s) (bins s) (filter (fun p => Z.ltb 0 (snd p)) pairs) = Some (bins s').
+Proof.
+  intros HI Hc Hne Hu.
+  destruct (feed_ref _ s HI Hc (pos_filter' pairs) Hu) as (s1 & F & _ & _ & _ & R).
+  unfold bulkload. destruct pairs as [|p0 pr] eqn:Ep; [congruence|]. rewrite <- Ep in *.
+  rewrite F. cbn [bind]. eexists. split; [reflexivity|]. cbn [bins]. exact R.
+Qed.
+
 End RefProofs.
 
 Lemma Qplus_comm_eq (a b : Q) : Qplus a b = Qplus b a.
